@@ -81,6 +81,11 @@ func checkC13(c *Ctx) {
 		if !cl.Call.IsInvoke() || cl.Call.Method.Name() != "IsOnCurve" {
 			return false
 		}
+		// ... asked of a curve that is not taken from the peer's own ephemeral key object (whoever sends the point
+		// must not choose the curve it is tested against)
+		if strings.HasPrefix(be.plain(cl.Call.Value, cl).String(), "rpub.") {
+			return false
+		}
 		return be.plain(cl.Call.Args[0], cl).String() == "rpub.X" && be.plain(cl.Call.Args[1], cl).String() == "rpub.Y"
 	}, true, "IsOnCurve(rpub)")
 	g := evalGuard(c.P, f, onc, spec, ops)
@@ -292,7 +297,8 @@ func checkC13(c *Ctx) {
 		c.Check(ok, "T-C13-order", fname(bc), "concatenates its arguments in order", "", "BytesCombine is not bytes.Join(parts in order, empty separator)", bc.Pos())
 	}
 	c13XHat(c)
-	st := bidx(c, "B-IDX", []*ssa.Function{f, c.Fn("sm2", "keXHat"), c.Fn("sm2", "BytesCombine"), c.Fn("sm2", "leftPad32")}, nil)
+	st := bidx(c, "B-IDX", []*ssa.Function{f, c.Fn("sm2", "keXHat"), c.Fn("sm2", "BytesCombine"), c.Fn("sm2", "leftPad32"), c.Fn("sm2", "kdf")}, map[string]string{
+		"B-IDX|sm2.kdf|index ?phi1[?phi2] #1": "the all-zero scan reads c[i], i<length, where len(c)==length follows from the block arithmetic checked by K-C02-kdf (loop invariant, not linear over one iteration; same exemption as under C02)"})
 	_ = st
 	c03IsOnCurve(c, "P-C03-formulas")
 	fixedWidthHashed(c, "P-WIDTH-hash")
